@@ -275,17 +275,25 @@ func (configgen *ConfigGeneratorImpl) deltaFromServiceDiff(
 		allServices = proxy.SidecarScope.ServicesByHostname()
 	}
 
+	prevServices := proxy.PrevSidecarScope.ServicesByHostname()
 	for _, service := range allServices {
 		if _, ok := serviceClusters[service.Hostname.String()]; !ok {
 			// this is a service we don't currently have and we should
 			services = append(services, service)
 			continue
 		}
+		// The hostname may now be provided by a service of another namespace (the proxy's imports changed):
+		// every cluster of the host changes, and the subsets follow the rules that bind to the new service.
+		moved := false
+		if prev, ok := prevServices[service.Hostname]; ok && prev.Attributes.Namespace != service.Attributes.Namespace {
+			moved = true
+			deletedClusters = append(deletedClusters, subsetClusters[service.Hostname.String()].UnsortedList()...)
+		}
 		// A service we keep may still be imported with different ports than before (a Sidecar egress
 		// listener bound to a port imports only that port): clusters of ports that are gone must be
 		// deleted and the service rebuilt when a port has no cluster yet.
 		portClusters := servicePortClusters[service.Hostname.String()]
-		rebuild := false
+		rebuild := moved
 		for port, clusters := range portClusters {
 			if _, exists := service.Ports.GetByPort(port); !exists {
 				deletedClusters = append(deletedClusters, clusters.UnsortedList()...)
